@@ -24,7 +24,7 @@ NA = []
 CHECKS.append(check(
     "C13", "disksim", "fault_enumeration",
     "Seeded workloads (payload x Write partition x codec x chunk sizing x page size x index location x temp-file flavour x resources) run the real rac.Writer over a simulated disk; fault-free runs are judged by an independent spec validator, an independent decoder and rac.Reader; then every single storage-fault position of the sampled workload (each underlying Write/Read/Seek x each applicable fault kind) is enumerated and the sticky-error oracle applied, plus drawn double faults. Sampling over workloads, exhaustive over single-fault positions per workload.",
-    "Trusts: the validator's reading of doc/spec/rac-spec.md; Go's compress/zlib as the independent zlib decoder; faults obey the io.Writer/io.Reader contracts. Zstandard leaves are additionally decoded by the system zstd tool (a sample of up to five leaves per file, exactly the leaf's first frame) and compared with the payload; LZ4 leaves are checked structurally and through rac.Reader only (the specification's "RAC + LZ4" section is "TODO").",
+    "Trusts: the validator's reading of doc/spec/rac-spec.md; Go's compress/zlib as the independent zlib decoder; faults obey the io.Writer/io.Reader contracts. Zstandard leaves are additionally decoded by the system zstd tool (a sample of up to five leaves per file, exactly the leaf's first frame) and compared with the payload; LZ4 leaves are checked structurally and through rac.Reader only (the specification's 'RAC + LZ4' section is 'TODO').",
     "deterministic simulation: simulated disk with enumerated fault points + reference model (independent RAC validator/decoder)",
     "DESIGN.md section 3 B, section 5 C13"))
 
